@@ -39,10 +39,6 @@ theorem ewmaNext_value (smoothing pv : F) (dt : Int) (o : Datum F) :
       .ok (⟨.ok (some ⟨o.time, ewmaVal pv o.value (ewmaLambda smoothing dt)⟩), some o.time⟩, .ok ()) := rfl
 end S
 
-theorem rne32_one : rne32 1 = 1 := by
-  have h := (c1 : SF).rep
-  unfold Rep at h; rwa [c1_val] at h
-
 theorem ewmaVal_val (p n L : SF) :
     (ewmaVal p n L).val = rne32 (rne32 (p.val * rne32 (1 - L.val)) + rne32 (n.val * L.val)) := by
   simp only [ewmaVal, add_val, mul_val, sub_val, c1_val]
